@@ -156,7 +156,7 @@ impl Check for C16 {
         "C16"
     }
     fn rule(&self) -> String {
-        "delegated role names over {/ \\ . % ? # : space \\x01 é a 1}: enumerated to length 4 (thorough: all 22620; quick: every 2nd), a dictionary of 22 hostile names, and seeded names to length 64; 1..3 such roles per repository, a quarter of them with a twin that spells one of the names with percent escapes, both consistent-snapshot settings; each run loads (with datastore), caches metadata, loads the same repository again as a local file repository through tough's FilesystemTransport (once complete, once with one role's plain entry removed and copies placed where decoded spellings of its name point), and builds + writes the same roles with the real editor; non-trivial = a name contains a path- or URL-significant character and its file was requested/written; distinct = distinct canonical trace".into()
+        "delegated role names over {/ \\ . % ? # : space \\x01 é a 1}: enumerated to length 4 (thorough: all 22620; quick: every 2nd), a dictionary of 22 hostile names, and seeded names to length 64; 1..3 such roles per repository, a quarter of them with a twin that spells one of the names with percent escapes, some with a twin that prepends dots (listed first), both consistent-snapshot settings; each run loads (with datastore), caches metadata, loads the same repository again as a local file repository through tough's FilesystemTransport (once complete, once with one role's plain entry removed and copies placed where decoded spellings of its name point), and builds + writes the same roles with the real editor; non-trivial = a name contains a path- or URL-significant character and its file was requested/written; distinct = distinct canonical trace".into()
     }
     fn assumptions(&self) -> Vec<String> {
         vec![
@@ -195,7 +195,13 @@ impl Check for C16 {
                 0 | 1 => names.push(name_of(r.below(n_enum()))),
                 // the same name spelt with percent escapes: must still be another file
                 2 => names.push(spell_escaped(&names[0], &mut r)),
-                _ => {}
+                // the same name with leading dots, listed first: `1..x.json` is not a version of `x`
+                _ => {
+                    if r.chance(1, 2) {
+                        let dotted = format!("{}{}", if r.chance(1, 2) { "." } else { ".." }, names[0]);
+                        names.insert(0, dotted);
+                    }
+                }
             }
         }
         names.dedup();
@@ -229,6 +235,12 @@ impl Check for C16 {
             let twin = spell_escaped(&names[0], &mut r);
             if !names.contains(&twin) {
                 names.push(twin);
+            }
+        }
+        if names.len() < 3 && r.chance(1, 6) {
+            let dotted = format!("{}{}", if r.chance(1, 2) { "." } else { ".." }, names[names.len() - 1]);
+            if !names.contains(&dotted) {
+                names.insert(0, dotted);
             }
         }
         Sc { world: r.below(9973), consistent: r.chance(1, 2), names }
